@@ -86,8 +86,14 @@ def judge(case, m):
     m.current_case = case
     rng = random.Random(case["seed"])
 
+    # objects called like the helpers in the caller's extra_namespace must not shadow the built-ins
+    decoys = {}
+    if case["seed"] % 2:
+        decoys = {"p": 0.5, "T": 10, "I": np.eye(2), "B": (lambda *a, **k: None), "offset": 3, "binary": "b", "prop": None,
+                  "proportion": 1, "S": [1], "C": {}, "standardize": 0, "scale": 1.0, "Treatment": 2, "Sum": sum, "center": "c"}
+
     def build(text):
-        return formulae.design_matrices(text, df)
+        return formulae.design_matrices(text, df, extra_namespace=dict(decoys))
 
     # ---- binary / B -------------------------------------------------------------------------
     for fn in ("binary", "B"):
@@ -184,6 +190,9 @@ def judge(case, m):
     bad["succ_frac"] = bad["succ"] + 0.5
     bad["succ_big"] = bad["tr"] + 1
     bad["tr_frac"] = bad["tr"] + 0.5
+    bad["succ_near"] = bad["succ"] * 100 + 250 + 0.002  # not integers, but close in relative terms
+    bad["tr_near"] = bad["tr"] * 100 + 500 + 0.004
+    bad["tr_far"] = bad["tr"] * 100 + 1000
     # unsigned dtypes: successes above trials must be refused there too (no wrap-around)
     for dt in ("uint8", "uint32", "uint64"):
         ub = df.copy()
@@ -205,7 +214,7 @@ def judge(case, m):
                 m.violation("proportion-validated", f"{dt} columns: response is not (successes, trials)", case=case, key="prop:training")
         except Exception as e:
             m.violation("proportion-validated", f"valid {dt} columns refused: {type(e).__name__}: {e}", case=case, key="prop:raises")
-    for text in ("prop(succ_frac, tr) ~ x", "prop(succ_big, tr) ~ x", "prop(succ, tr_frac) ~ x", "prop(succ, 0) ~ x" if df["succ"].max() > 0 else "prop(succ_big, 1) ~ x",
+    for text in ("prop(succ_near, tr_far) ~ x", "prop(succ, tr_near) ~ x", "prop(succ_frac, tr) ~ x", "prop(succ_big, tr) ~ x", "prop(succ, tr_frac) ~ x", "prop(succ, 0) ~ x" if df["succ"].max() > 0 else "prop(succ_big, 1) ~ x",
                  "y ~ prop(succ, tr)"):
         m.ev("proportion-validated")
         try:
